@@ -10,7 +10,7 @@ run_one() {
   mkdir $d/demo; cp /verif/seeded/$id/demo.py $d/demo/demo.py
   (cd $d/demo; PYTHONPATH=$d/repo /venv/bin/python demo.py > /dev/null 2>&1); rc=$?
   for p in $checks; do
-    n=$(VERIF_GEN_SUFFIX=_$id VERIF_REPO=$d/repo /verif/check $p 2>/dev/null | grep -c VIOLATION)
+    n=$(VERIF_GEN_SUFFIX=_$id VERIF_EVIDENCE_DIR=$d/evidence VERIF_REPO=$d/repo /verif/check $p 2>/dev/null | grep -c VIOLATION)
     echo "$id demo_rc_with_change=$rc check=$p violation_lines=$n"
   done
   git -C /repo worktree remove --force $d/repo; rm -rf $d /verif/coq/gen/*_$id /verif/coq/gen/*_${id}_props
